@@ -307,6 +307,58 @@ PROPS = {
 }
 
 # ---------------------------------------------------------------------------------------------------------------------------
+# C04 and C07: claimed in the second build session for the clauses that are visible in code shape (DESIGN.md 9.12)
+from .rules import c04 as R_c04
+from .harness import scoped
+
+_X86 = ("amoco/arch/x86/", "amoco/arch/x64/")
+PROPS["C04"] = dict(
+    title="Decoder index is equivalent to a most-constrained-first scan",
+    explanation=(
+        "Does NOT decide the equivalence of the tree with the linear scan over all byte strings.  Decides the construction invariants "
+        "without which the tree cannot be a faithful index (each a necessary condition): (R-INDEX) ORDER - setup sorts its list by "
+        "mask weight, descending, with a stable sort and fills leaves in that order; SPLIT - a node's mask is the AND of the adjusted "
+        "masks of all its specs; KEY - specs are filed under adjust(fix) & mask, the node is labelled with that mask, __call__ looks "
+        "up word & label; ADJUST - the endianness justification is the same function (and width) in setup and __call__; LEAF - no "
+        "break leaves the leaf scan and a rejecting spec continues with the next; RECURSE - every bucket is organised by setup. "
+        "(R-HANDLERS) the scan's handlers still absorb DecodeError and InstructionError; (R-RESET) the pending prefix is dropped on "
+        "every exit, so the recursion on prefixes starts clean."
+    ),
+    rules=[(R_c04.r_index, Q), (R_c11.r_reset, Q)],
+    level_text="partial (necessary conditions only): writer/reader agreement and ordering invariants of the two functions that build and walk the index; the tests decode ~150 byte strings through it",
+    level_note="Trusted: recognition of the sort call, the reduce / &= form of the split mask, the filing statement and the look-up; unrecognised forms are undecided, not alarmed.  A comparison of the tree against a linear scan for all words needs values and is not attempted.",
+    technique="sibling (writer/reader) agreement + ordering / must-not-exit checks on the AST and CFG of two functions",
+    trusted_base=["vstat/rules/c04.py pattern recognition", "vstat.cfg"],
+    assumptions=["list.sort / sorted are stable (Python language guarantee)"],
+)
+PROPS["C07"] = dict(
+    title="x86/x64 instruction boundaries agree with reference disassemblers",
+    explanation=(
+        "Does NOT compare with binutils / LLVM (no reference is available offline and lengths are runtime values).  Decides the "
+        "self-consistency clauses every agreement on instruction length presupposes, restricted to amoco/arch/x86 and amoco/arch/x64: "
+        "(R-PAIR) every piece consumed from the variable tail is appended to the instruction bytes on every path, in input order, so "
+        "length == bytes consumed; (R-TAILCHK) every bounded tail slice is dominated by a length test against the same bound, so a "
+        "length never counts bytes that were not there; (R-OVERGUARD) a length requirement is made only on paths that consume; "
+        "(R-MAXLEN) no x86/x64 spec exceeds the architectural 15-byte window assumptions of the decoder; (R-RESET / R-ROLLBACK) the "
+        "prefix accumulator is dropped on every exit and rejected specs leave no bytes behind, so a boundary never inherits bytes of "
+        "an earlier instruction; (R-MISCNONE) prefix state is tested before it is indexed."
+    ),
+    rules=[
+        (scoped(R_c05.r_pair, _X86, "x86"), Q),
+        (scoped(R_c05.r_tailchk, _X86, "x86"), Q),
+        (scoped(R_c05.r_overguard, _X86, "x86"), Q),
+        (R_c11.r_reset, Q),
+        (R_c11.r_rollback, Q),
+        (scoped(R_c17.r_miscnone_c17, _X86, "x86"), Q),
+    ],
+    level_text="partial (necessary conditions only): consumed == recorded, guarded slices and prefix-state hygiene over the ~420 tail-taking x86/x64 setup functions and helpers; no reference disassembler is consulted",
+    level_note="Trusted: tail-variable tracking of vstat/rules/c05.py; immediate sizes, ModRM/SIB forms and opcode maps themselves are values and are not decided.",
+    technique="pairing / dominance (must-pass-through) checks on statement CFGs, restricted to the x86/x64 decoders",
+    trusted_base=["vstat/rules/c05.py", "vstat.cfg"],
+    assumptions=[],
+)
+
+# ---------------------------------------------------------------------------------------------------------------------------
 # R-BOUNDARY: the reviewed table of boundary comparisons (ref/boundaries.json) contributes rows to these properties
 from .rules import boundary as R_bd
 
